@@ -17,9 +17,12 @@ VERIF = os.path.dirname(os.path.dirname(os.path.abspath(__file__)))
 PY = '/venv/bin/python'
 
 
-def sh(cmd, cwd=None, timeout=1200):
+ENV = dict(os.environ)
+
+
+def sh(cmd, cwd=None, timeout=1800):
     try:
-        p = subprocess.run(cmd, shell=True, cwd=cwd, capture_output=True, text=True, timeout=timeout)
+        p = subprocess.run(cmd, shell=True, cwd=cwd, capture_output=True, text=True, timeout=timeout, env=ENV)
     except subprocess.TimeoutExpired:
         return 124, 'TIMEOUT'
     return p.returncode, p.stdout + p.stderr
@@ -93,6 +96,11 @@ def work(job):
 
 def main():
     args = sys.argv[1:]
+    # every worker runs its checks one after the other in one process each; the delimiter-stack simulation (a function
+    # of core_tokens.py alone) is computed once per distinct text of that file (opt-in cache of sa/rules/c06.py)
+    cache = tempfile.mkdtemp(prefix='recheck_cache_')
+    ENV['VERIF_CACHE_DIR'] = cache
+    ENV['VERIF_NO_FORK'] = '1'
     jobs = 6
     if args[:1] == ['-j']:
         jobs = int(args[1])
